@@ -25,7 +25,7 @@ RECURSIVE SelCode(_, _, _)
 SelCode(r, row, k) ==
   IF k > Len(cfg.sel) THEN ""
   ELSE LET it == cfg.sel[k]  x == Eval(it.e, row) IN
-       IF x.k = "err" THEN SelCode(r, row, k + 1)                       \* outside the decided domain: any value / NULL / absent
+       IF Bad(x) THEN SelCode(r, row, k + 1)                       \* outside the decided domain: any value / NULL / absent
        ELSE IF it.al \notin DOMAIN r THEN (IF x.k = "null" /\ "AbsentForNull" \in Dev THEN SelCode(r, row, k + 1) ELSE "column_missing_" \o it.al)
        ELSE IF ~Matches(r[it.al], x) THEN
               IF x.k = "bool" /\ r[it.al].k = "null" /\ ~x.v THEN SelCode(r, row, k + 1)   \* a not-true comparison may surface as NULL
